@@ -162,7 +162,7 @@ PROPS = {
         lean_modules=["Liftbridge.Props.C13", "Liftbridge.Props.GoGroupSub", "Liftbridge.Props.GoSubEntry"],
         gen_sources=["server/partition.go:partition.Subscribe", "server/partition.go:partition.newSubscribeLoop",
                      "server/partition.go:partition.removeGroupSubscriber"],
-        runs=[dict(go_pkg="./server", test="TestVerifC13"), dict(go_pkg="./server", test="TestVerifC13Shapes"), dict(go_pkg="./server", test="TestVerifC13Replica")],
+        runs=[dict(go_pkg="./server", test="TestVerifC13"), dict(go_pkg="./server", test="TestVerifC13Shapes")],
         level="proof",
         assumptions=[
             "granularity: Subscribe's group section (look-up .. registration) and removeGroupSubscriber are atomic steps because both run under consumersMu, held by Subscribe until it returns (regenerated facts subscribeLocked / cleanupLocked); subscription.Close is atomic under the subscription's mutex; goroutine interleavings = arbitrary step lists",
